@@ -220,8 +220,23 @@ def render_hierarchy(h):
         src.append('class %s%s:' % (name, '(%s)' % ', '.join(bases) if bases else ''))
         body = ['    %s = 0' % a for a in attrs] + ['    def %s(self): pass' % m for m in meths]
         if selfs:
-            body += ['    def __init__(self):'] + (['        super().__init__()'] if bases else []) + \
-                    ['        self.%s = 0' % a for a in selfs]
+            body += ['    def __init__(self):'] + (['        super().__init__()'] if bases else [])
+            # how the instance attribute comes into being varies with the class (all are executed by the constructor)
+            style = sum(map(ord, name)) % 5
+            for a in selfs:
+                if style == 0:
+                    body += ['        self.%s = 0' % a]
+                elif style == 1:        # in a helper method called by the constructor
+                    body += ['        self.setup_%s()' % a]
+                elif style == 2:        # through a closure over self, nested in the method
+                    body += ['        def cb_zz():', '            self.%s = 0' % a, '        cb_zz()']
+                elif style == 3:        # as a loop / tuple target
+                    body += ['        for self.%s in (0,):' % a, '            pass']
+                else:
+                    body += ['        self.%s, other_zz = 0, 0' % a]
+            if style == 1:
+                for a in selfs:
+                    body += ['    def setup_%s(self):' % a, '        self.%s = 0' % a]
         src += body or ['    pass']
     src.append('obj_zz = %s()' % h['leaf'])
     return '\n'.join(src)
